@@ -32,6 +32,23 @@ SIG_STALE_INVALID = "sticky-invalid:partition-given-to-stale-lower-generation-cl
 SIG_STALE_CRASH = "sticky-crash:KeyError-when-stale-lower-generation-claimant-is-a-fixed-consumer"
 
 
+_VCOUNT = collections.Counter()
+MAX_PER_CATEGORY = 6
+
+
+def viol(ck, what, replay, signature=None):
+    """register a violation, but at most MAX_PER_CATEGORY per category (the part of the
+    signature before the input-specific suffix): a broken assignor fails on tens of thousands
+    of inputs and one replay file per input helps nobody.  All are counted."""
+    sig = signature or what
+    known = (SIG_UNSUB_TOPIC, SIG_SUB_ORDER, SIG_STALE_INVALID, SIG_STALE_CRASH)
+    cat = sig if sig in known else sig.split(":")[0]
+    _VCOUNT[cat] += 1
+    ck.extra.setdefault("violations_by_category", {})[cat] = _VCOUNT[cat]
+    if _VCOUNT[cat] <= MAX_PER_CATEGORY:
+        ck.violation(what, replay, signature=signature)
+
+
 # =============================================================================== monitors
 def owners_of(out):
     """{(t, p): [owners]} of a converted assignment [[id, [[t, [p..]]..]]..]"""
@@ -373,7 +390,7 @@ def check_case(ck, case, res, tally, streams, origin):
         if out is None:
             continue
         if isinstance(out, dict):
-            ck.violation(f"{a} assignor raised {out['exc']}", dict(replay, assignor=a, real=out),
+            viol(ck, f"{a} assignor raised {out['exc']}", dict(replay, assignor=a, real=out),
                          signature=f"{a}-crash:{out['exc'][:60]}")
             continue
         bad = mon_valid(case, out)
@@ -382,7 +399,7 @@ def check_case(ck, case, res, tally, streams, origin):
         elif identical_subscriptions(case):
             bad += mon_within_one(case, out)
         if bad:
-            ck.violation(f"{a} assignor: {bad[0]}", dict(replay, assignor=a, real=out, flaws=bad[:5]),
+            viol(ck, f"{a} assignor: {bad[0]}", dict(replay, assignor=a, real=out, flaws=bad[:5]),
                          signature=f"{a}:{bad[0][0]}:{key}"[:200])
     if "range" in res or "roundrobin" in res:
         streams.append((enc_kind0(case), ("k0", case, res.get("range"), res.get("roundrobin"))))
@@ -396,7 +413,7 @@ def check_sticky(ck, case, st, tally, streams, origin, prop="C14"):
     replay = {"case": case, "origin": origin, "assignor": "sticky"}
     if "exc" in st:
         sig = stale_claimant_signature(case, "crash") if st["exc"].startswith("KeyError") else None
-        ck.violation(f"sticky assign() raised {st['exc']}", dict(replay, real=st),
+        viol(ck, f"sticky assign() raised {st['exc']}", dict(replay, real=st),
                      signature=sig or f"sticky-crash:{st['exc'][:60]}:{S.case_key(case)}"[:200])
         tally.n["sticky:raised"] += 1
         return None
@@ -406,11 +423,11 @@ def check_sticky(ck, case, st, tally, streams, origin, prop="C14"):
     if bad:
         sig = stale_claimant_signature(case, "invalid", bad)
         known_invalid = sig is not None
-        ck.violation(f"sticky assignor: {bad[0]}", dict(replay, real=out, flaws=bad[:5], log=st),
+        viol(ck, f"sticky assignor: {bad[0]}", dict(replay, real=out, flaws=bad[:5], log=st),
                      signature=sig or f"sticky-invalid:{bad[0][0]}:{S.case_key(case)}"[:200])
     kb = mon_kip54(case, out)
     if kb and not known_invalid:
-        ck.violation(f"sticky assignor result not KIP-54 balanced: {kb[0]}",
+        viol(ck, f"sticky assignor result not KIP-54 balanced: {kb[0]}",
                      dict(replay, real=out, flaws=kb[:5], log=st),
                      signature=f"sticky-kip54:{S.case_key(case)}"[:200])
     # the returned dict and the executor's final state must be the same ownership
@@ -534,7 +551,7 @@ def run(ck: Check):
     tally = Tally()
     rng = ck.rng
     sample_for_coq = []          # (stream, expectation) re-evaluated by vm_compute
-    n_coq = ck.n(1000, 12000)
+    n_coq = ck.n(700, 8000)
 
     # ---------------- known-finding corpus + corpus directory
     corpus = load_corpus()
